@@ -20,6 +20,7 @@ import (
 	"google.golang.org/protobuf/proto"
 
 	"github.com/obolnetwork/charon/core"
+	"github.com/obolnetwork/charon/core/consensus/protocols"
 	cqbft "github.com/obolnetwork/charon/core/consensus/qbft"
 	pbv1 "github.com/obolnetwork/charon/core/corepb/v1"
 	"github.com/obolnetwork/charon/p2p"
@@ -74,6 +75,17 @@ type Node struct {
 
 	mu        sync.Mutex
 	decisions []Decision
+	runs      int // completed runs of the component's per-duty instance (sniffer callbacks)
+}
+
+// WireMsg is one consensus message a member put on the wire (observed at send time by the network tap).
+type WireMsg struct {
+	From          int
+	Type          int64
+	Round         int64
+	PreparedRound int64
+	ValueHash     string
+	Duty          core.Duty
 }
 
 // Decisions returns what this member's subscriber has been handed so far.
@@ -94,6 +106,11 @@ type World struct {
 	seqMu  sync.Mutex
 	seq    int
 	duties int
+
+	wireMu   sync.Mutex
+	wire     []WireMsg
+	firstIn  map[int]chan struct{} // closed when the first consensus envelope addressed to member i (current duty) is sent
+	firstSet map[int]bool
 }
 
 // New builds a cluster of n honest members on one in-memory network.
@@ -121,7 +138,11 @@ func New(t testing.TB, b *Beacon, n int) (*World, error) {
 	for i := 0; i < n; i++ {
 		nd := &Node{Idx: i}
 		c, err := cqbft.NewConsensus(ctx, b.Mock, w.Net.Host(ids[i]), new(p2p.Sender), peers, keys[i], deadliner{ch: make(chan core.Duty)},
-			func(core.Duty) bool { return true }, func(*pbv1.SniffedConsensusInstance) {}, false)
+			func(core.Duty) bool { return true }, func(*pbv1.SniffedConsensusInstance) {
+				nd.mu.Lock()
+				nd.runs++
+				nd.mu.Unlock()
+			}, false)
 		if err != nil {
 			cancel()
 			return nil, err
@@ -141,6 +162,30 @@ func New(t testing.TB, b *Beacon, n int) (*World, error) {
 		nd.Cons = c
 		w.Nodes = append(w.Nodes, nd)
 	}
+
+	idx := map[peer.ID]int{}
+	for i, id := range ids {
+		idx[id] = i
+	}
+	w.Net.SetTap(func(e *fakenet.Envelope) {
+		if e.Proto != protocols.QBFTv2ProtocolID {
+			return
+		}
+		var m pbv1.QBFTConsensusMsg
+		if err := fakenet.Unframe(e.Data, &m); err != nil || m.GetMsg() == nil {
+			return
+		}
+		q := m.GetMsg()
+		w.wireMu.Lock()
+		w.wire = append(w.wire, WireMsg{From: idx[e.From], Type: q.GetType(), Round: q.GetRound(), PreparedRound: q.GetPreparedRound(),
+			ValueHash: string(q.GetValueHash()), Duty: core.Duty{Slot: q.GetDuty().GetSlot(), Type: core.DutyType(q.GetDuty().GetType())}})
+		to := idx[e.To]
+		if ch, ok := w.firstIn[to]; ok && !w.firstSet[to] {
+			w.firstSet[to] = true
+			close(ch)
+		}
+		w.wireMu.Unlock()
+	})
 
 	return w, nil
 }
@@ -170,12 +215,22 @@ type Plan struct {
 	Late []bool
 	// Repeat[i]: an early proposer calls Propose a second time after its decision (a retry).
 	Repeat []bool
+	// OnFirstInbound[i]: member i makes its first call the moment the first consensus message addressed
+	// to it for this duty is put on the wire (its local start coincides with its first inbound message;
+	// in production both happen around the duty's start time on different goroutines).
+	OnFirstInbound []bool
+	// StartLag[i]: extra delay of that placement (the receive handler verifies signatures before it
+	// touches the component's per-duty bookkeeping; the lag sweeps the local start across that span).
+	StartLag []time.Duration
+	// Slow[i] > 0: a member that participates at the start obtains its proposal data this much later and
+	// calls Propose then, whether or not it has decided meanwhile (a slow beacon node).
+	Slow []time.Duration
 }
 
 // RandomPlan draws a plan in which the round-1 leader proposes early (so that the duty decides
 // without waiting for timeouts) and the others join in PRNG-chosen ways.
 func RandomPlan(rng *rand.Rand, n int, leader int) Plan {
-	p := Plan{Early: make([]bool, n), Late: make([]bool, n), Repeat: make([]bool, n)}
+	p := Plan{Early: make([]bool, n), Late: make([]bool, n), Repeat: make([]bool, n), OnFirstInbound: make([]bool, n), StartLag: make([]time.Duration, n), Slow: make([]time.Duration, n)}
 	for i := 0; i < n; i++ {
 		switch rng.Intn(4) {
 		case 0:
@@ -188,6 +243,16 @@ func RandomPlan(rng *rand.Rand, n int, leader int) Plan {
 		}
 	}
 	p.Early[leader] = true
+	for i := 0; i < n; i++ {
+		if i == leader {
+			continue
+		}
+		p.OnFirstInbound[i] = rng.Intn(4) != 0
+		p.StartLag[i] = time.Duration(rng.Intn(60)) * 100 * time.Microsecond
+		if !p.Early[i] && !p.Late[i] && rng.Intn(2) == 0 {
+			p.Slow[i] = time.Duration(5+rng.Intn(300)) * time.Millisecond
+		}
+	}
 	if rng.Intn(2) == 0 { // the shape in which a quorum obtains its proposal late
 		for i := 0; i < n; i++ {
 			if i != leader {
@@ -204,8 +269,11 @@ type Result struct {
 	Duty      core.Duty
 	Plan      Plan
 	Decisions map[int][]Decision // by member
+	Runs      map[int]int        // completed instance runs by member during this duty
+	Wire      []WireMsg          // consensus messages the members put on the wire for this duty
 	Errors    []string
 	TimedOut  bool
+	Stuck     bool // some Propose / Participate call did not return after its context ended
 }
 
 // RunDuty runs one duty according to plan and returns every subscriber delivery observed until all
@@ -220,9 +288,22 @@ func (w *World) RunDuty(b *Beacon, rng *rand.Rand, planFn func(leader int) Plan,
 	w.seqMu.Unlock()
 	duty := core.Duty{Slot: b.CurrentSlot() + 1 + uint64(k/len(types)), Type: types[k%len(types)]}
 	plan := planFn(int((duty.Slot + uint64(duty.Type) + 1) % uint64(w.N))) // production leader election: (slot + type + round) mod n
-	res := &Result{Duty: duty, Plan: plan, Decisions: map[int][]Decision{}}
+	res := &Result{Duty: duty, Plan: plan, Decisions: map[int][]Decision{}, Runs: map[int]int{}}
 	ctx, cancel := context.WithTimeout(w.ctx, 15*time.Second)
 	defer cancel()
+	runs0 := map[int]int{}
+	w.wireMu.Lock()
+	w.firstIn, w.firstSet = map[int]chan struct{}{}, map[int]bool{}
+	for i := range w.Nodes {
+		w.firstIn[i] = make(chan struct{})
+	}
+	firstIn := w.firstIn
+	w.wireMu.Unlock()
+	for i, nd := range w.Nodes {
+		nd.mu.Lock()
+		runs0[i] = nd.runs
+		nd.mu.Unlock()
+	}
 	var wg sync.WaitGroup
 	var emu sync.Mutex
 	fail := func(i int, what string, err error) {
@@ -245,9 +326,31 @@ func (w *World) RunDuty(b *Beacon, rng *rand.Rand, planFn func(leader int) Plan,
 		wg.Add(1)
 		go func(i int, nd *Node) {
 			defer wg.Done()
+			if len(plan.OnFirstInbound) > i && plan.OnFirstInbound[i] {
+				select {
+				case <-firstIn[i]:
+					if len(plan.StartLag) > i && plan.StartLag[i] > 0 {
+						time.Sleep(plan.StartLag[i])
+					}
+				case <-time.After(20 * time.Millisecond):
+				case <-ctx.Done():
+				}
+			}
 			if plan.Early[i] {
 				fail(i, "propose", nd.Cons.ProposePriority(ctx, duty, Value(fmt.Sprintf("%s/early-%d", label, i))))
 			} else {
+				if len(plan.Slow) > i && plan.Slow[i] > 0 && !plan.Late[i] {
+					wg.Add(1)
+					go func() {
+						defer wg.Done()
+						select {
+						case <-time.After(plan.Slow[i]):
+						case <-ctx.Done():
+							return
+						}
+						fail(i, "slow propose", nd.Cons.ProposePriority(ctx, duty, Value(fmt.Sprintf("%s/slow-%d", label, i))))
+					}()
+				}
 				fail(i, "participate", nd.Cons.Participate(ctx, duty))
 			}
 			if !plan.Late[i] && !plan.Repeat[i] {
@@ -265,7 +368,13 @@ func (w *World) RunDuty(b *Beacon, rng *rand.Rand, planFn func(leader int) Plan,
 	case <-done:
 	case <-ctx.Done():
 		res.TimedOut = true
-		<-done
+		// every call takes the context; one that has not returned a generous while after its end is
+		// recorded (not a verdict by itself) and left behind, so that what the monitors saw is still judged
+		select {
+		case <-done:
+		case <-time.After(10 * time.Second):
+			res.Stuck = true
+		}
 	}
 	// late deliveries of a second run would arrive within its first rounds; the calls above only return
 	// once such a run has completed, so a short settle is enough
@@ -276,7 +385,18 @@ func (w *World) RunDuty(b *Beacon, rng *rand.Rand, planFn func(leader int) Plan,
 				res.Decisions[i] = append(res.Decisions[i], d)
 			}
 		}
+		nd.mu.Lock()
+		res.Runs[i] = nd.runs - runs0[i]
+		nd.mu.Unlock()
 	}
+	w.wireMu.Lock()
+	for _, m := range w.wire {
+		if m.Duty == duty {
+			res.Wire = append(res.Wire, m)
+		}
+	}
+	w.wire = nil
+	w.wireMu.Unlock()
 
 	return res
 }
@@ -302,6 +422,51 @@ func (r *Result) Check() (agreement, integrity []Finding) {
 			vals[d.Value] = append(vals[d.Value], i)
 		}
 	}
+	// What an honest member puts on the wire for one duty must be what ONE run of the algorithm emits:
+	// agreement rests on every member voting once per round and reporting the round it prepared in.
+	// (Judged order-independently: sends are asynchronous, so the tap order is not the creation order;
+	// a ROUND-CHANGE for round R is always created after the member's COMMIT of a round r < R.)
+	type vk struct {
+		from  int
+		typ   int64
+		round int64
+	}
+	votes := map[vk]string{}
+	commitRound := map[int]int64{}
+	for _, m := range r.Wire {
+		if m.Type == 1 || m.Type == 2 || m.Type == 3 {
+			k := vk{m.From, m.Type, m.Round}
+			if prev, ok := votes[k]; ok && prev != m.ValueHash {
+				agreement = append(agreement, Finding{"consensus-component/member-voted-for-two-values-in-one-round/" + wireTypeName(m.Type),
+					fmt.Sprintf("duty %v: member %d sent two %s messages of round %d with different values", r.Duty, m.From, wireTypeName(m.Type), m.Round)})
+			}
+			votes[k] = m.ValueHash
+		}
+		if m.Type == 3 && m.Round > commitRound[m.From] {
+			commitRound[m.From] = m.Round
+		}
+	}
+	reported := map[int]bool{}
+	for _, m := range r.Wire {
+		if m.Type != 4 || reported[m.From] {
+			continue
+		}
+		for _, c := range r.Wire {
+			if c.From == m.From && c.Type == 3 && c.Round < m.Round && m.PreparedRound < c.Round {
+				reported[m.From] = true
+				agreement = append(agreement, Finding{"consensus-component/member-understates-its-prepared-round-after-committing",
+					fmt.Sprintf("duty %v: member %d sent COMMIT in round %d and a ROUND-CHANGE for round %d that claims prepared round %d (instance runs of that member: %d)",
+						r.Duty, m.From, c.Round, m.Round, m.PreparedRound, r.Runs[m.From])})
+				break
+			}
+		}
+	}
+	for _, i := range sortedKeys(r.Runs) {
+		if r.Runs[i] > 1 {
+			agreement = append(agreement, Finding{"consensus-component/member-ran-two-instances-for-one-duty",
+				fmt.Sprintf("duty %v: member %d ran %d consensus instances (each with blank prepared state and vote record) for the same duty", r.Duty, i, r.Runs[i])})
+		}
+	}
 	if len(vals) > 1 {
 		var ks []string
 		for k := range vals {
@@ -313,6 +478,20 @@ func (r *Result) Check() (agreement, integrity []Finding) {
 	}
 
 	return agreement, integrity
+}
+
+func wireTypeName(t int64) string {
+	return map[int64]string{1: "pre_prepare", 2: "prepare", 3: "commit", 4: "round_change", 5: "decided"}[t]
+}
+
+func sortedKeys(m map[int]int) []int {
+	var ks []int
+	for k := range m {
+		ks = append(ks, k)
+	}
+	sort.Ints(ks)
+
+	return ks
 }
 
 func valuesOf(ds []Decision) []string {
@@ -355,6 +534,21 @@ func RunBatch(t testing.TB, b *Beacon, rng *rand.Rand, worlds, duties int, onAgr
 			if res.TimedOut {
 				obs["component_duties_timed_out"]++
 			}
+			if res.Stuck {
+				obs["component_duties_with_a_call_that_never_returned"]++
+			}
+			obs["component_wire_messages_judged"] += len(res.Wire)
+			for i := range res.Plan.OnFirstInbound {
+				if res.Plan.OnFirstInbound[i] {
+					obs["component_local_starts_placed_at_first_inbound_message"]++
+				}
+				if res.Plan.Slow[i] > 0 && !res.Plan.Late[i] && !res.Plan.Early[i] {
+					obs["component_propose_calls_while_participating"]++
+				}
+			}
+			for _, k := range res.Runs {
+				obs["component_instance_runs"] += k
+			}
 			agr, integ := res.Check()
 			for _, f := range agr {
 				onAgreement(f, res)
@@ -362,7 +556,7 @@ func RunBatch(t testing.TB, b *Beacon, rng *rand.Rand, worlds, duties int, onAgr
 			for _, f := range integ {
 				onIntegrity(f, res)
 			}
-			if len(agr)+len(integ) > 0 {
+			if len(agr)+len(integ) > 0 || res.Stuck {
 				break
 			}
 		}
